@@ -45,8 +45,8 @@ class C16(Check):
     components_real = ["bromelia._internal_utils.SessionHandler", "SessionIdAVP / AcctMultiSessionIdAVP constructors",
                        "typed message constructors", "DiameterMessage.update_avps"]
     components_stub = ["datetime.utcnow (simulated wall clock, monotone non-decreasing)"]
-    assumptions = ["the wall clock never runs backwards (backward jumps are not part of the deciding runs)",
-                   "fewer than 2^32 Session-Ids are generated per run"]
+    assumptions = ["a quarter of the runs also step the wall clock backwards; the counter is fast-forwarded near 2^32 "
+                   "through the anchored state SessionHandler.id when that attribute exists"]
 
     def gen_scenario(self, rng, tier, index):
         nid = rng.choice([1, 2, 2, 3, 4])
@@ -56,6 +56,7 @@ class C16(Check):
         nmsgs = 0
         # clock behaviour of this run
         style = rng.choice(["frozen", "fast", "mixed", "mixed", "slow"])
+        backward = rng.random() < 0.25
         for _ in range(n):
             x = rng.random()
             if x < 0.22:
@@ -80,6 +81,14 @@ class C16(Check):
                 # other library objects come to life in the same process (a Diameter node is configured,
                 # base messages are built): none of that may disturb the generator
                 ops.append(["new_node", rng.randrange(nid)])
+            elif x < 0.93 and backward:
+                # the wall clock is stepped BACK (NTP step, VM resume): uniqueness is promised for the life
+                # of the process, whatever the clock does
+                ops.append(["clock_back", rng.choice([1.0, 2.0, 3.0, 60.0])])
+            elif x < 0.915:
+                # a process that has been alive for a very long time: the generator's counter (the
+                # anchored state SessionHandler.id) is fast-forwarded close to 2^32
+                ops.append(["ffwd", rng.choice([1, 2, 5, 40])])
             else:
                 if style == "frozen":
                     dt = 0.0
@@ -214,6 +223,16 @@ class C16(Check):
                         if ent[0].session_id_avp.data not in raw:
                             violations.append({"clause": "message carries the regenerated Session-Id",
                                                "sig": "C16/reorigin-not-in-dump", "detail": {"op": opi}})
+                    elif kind == "clock_back":
+                        sim.wall_offset -= op[1]
+                        stats["clock_back"] = stats.get("clock_back", 0) + 1
+                        hist_sig.append("k")
+                    elif kind == "ffwd":
+                        cur_id = getattr(SessionHandler, "id", None)
+                        if isinstance(cur_id, int) and cur_id < MAX32 - 1000:
+                            SessionHandler.id = MAX32 - op[1]
+                            stats["fast_forwards"] = stats.get("fast_forwards", 0) + 1
+                        hist_sig.append("f")
                     elif kind == "new_node":
                         from bromelia.setup import Diameter
                         Diameter(config={"MODE": "CLIENT", "APPLICATIONS": [], "LOCAL_NODE_HOSTNAME": ids[op[1]],
@@ -278,7 +297,8 @@ class C16(Check):
                            extra={"identity_switches": stats["identity_switches"],
                                   "same_second_pairs": stats["same_second_pairs"],
                                   "sched_sig": hs,
-                                  "faults": {"clock_steps": stats["clock_steps"],
+                                  "faults": {"clock_steps": stats["clock_steps"], "clock_stepped_back": stats.get("clock_back", 0),
+                                             "counter_fast_forward": stats.get("fast_forwards", 0),
                                              "identity_switch": stats["identity_switches"],
                                              "generation_within_same_clock_second": stats["same_second_pairs"]}})
 
